@@ -548,6 +548,17 @@ pub fn run(which: Which, tier: Tier, seed: u64, out: &str) {
             let t1 = Step { update: Some("all"), ..plain.clone() };
             history(&mut sink, &mut r.fork(), which, &scratch, &bin, 3, &[(&[("lib/denied.rs", 9)], t1), (&[], plain.clone()), (&[], Step { fail_fast: true, ..plain.clone() })]);
         }
+        if which == Which::C11 {
+            let plain = Step { root: None, given: true, update: None, ratchet: None, ratchet_by_config: false, warn_only: false, wae: false, files: vec![], fail_fast: false, ff_by_config: false, threads: 1 };
+            // a recorded file that has grown since, then a failure nobody recorded: fail-fast (flag
+            // and configuration, one worker, files in this order) must still end at the real failure
+            for by_config in [false, true] {
+                let s1 = Step { update: Some("all"), ..plain.clone() };
+                let s2 = Step { fail_fast: true, ff_by_config: by_config, files: vec!["src/a.rs", "src/b.rs", "src/c.rs"], ..plain.clone() };
+                let s3 = Step { fail_fast: true, ff_by_config: by_config, ..plain.clone() };
+                history(&mut sink, &mut r.fork(), which, &scratch, &bin, 3, &[(&[("src/a.rs", 8), ("src/b.rs", 2), ("src/c.rs", 2), ("src/sub/d.rs", 2), ("lib/e.rs", 2), (".lib/e.rs", 2), ("lib/b\\s.rs", 2)], s1), (&[("src/a.rs", 12), ("src/b.rs", 9)], s2), (&[], s3)]);
+            }
+        }
         for _ in 0..tier.scale(100, 3_000) {
             history(&mut sink, &mut r, which, &scratch, &bin, 8, &[]);
         }
